@@ -3,6 +3,7 @@ From Coq Require Import Extraction ExtrOcamlBasic.
 From GV Require Import Base.Util Base.NMap Circuit.Ssa Circuit.Reg Circuit.RegAlloc Circuit.Bristol
   Builder.Builder Builder.Build Gadgets.Gadgets
   Lang.Types Lang.Literal Exhaust.Pat Exhaust.Covers Lang.Ast Lang.Sem Lang.Wt.
+From GV Require Import Front.Scan Front.Prettify Compile.Consts Panic.PanicRec.
 Extraction Language OCaml.
 Set Extraction AccessOpaque.
 Separate Extraction
@@ -22,4 +23,7 @@ Separate Extraction
   Pat.has_type Pat.pat_matches Pat.pat_wt Pat.select_arm
   Covers.covers Covers.uncovered Covers.witness_ok Covers.region_reps
   Sem.run_main Sem.sizeof Ast.find_fn Wt.wt_program
-  Bristol.export Bristol.import Bristol.USIZE_MAX.
+  Bristol.export Bristol.import Bristol.USIZE_MAX
+  Scan.scan_text Prettify.prettify_meta
+  Consts.repaired Consts.original Consts.check_defs Consts.compile_consts Consts.const_spec Consts.bits_unsigned Consts.bits_signed Consts.wt_defs Consts.sup_ok
+  PanicRec.pstate_new PanicRec.push_panic_if PanicRec.mux_panic PanicRec.prec_wires PanicRec.nset_keys PanicRec.parse_panic PanicRec.preason_num PanicRec.preason_from_num.
